@@ -139,7 +139,10 @@ static struct { const char* name; var* t; } types[] = {
   {"Type",&Type},{"Tuple",&Tuple},{"Ref",&Ref},{"Box",&Box},{"Int",&Int},{"Float",&Float},{"String",&String},
   {"Tree",&Tree},{"List",&List},{"Array",&Array},{"Table",&Table},{"Range",&Range},{"Slice",&Slice},
   {"Zip",&Zip},{"Filter",&Filter},{"Map",&Map},{"File",&File},{"Mutex",&Mutex},{"Thread",&Thread},
-  {"Process",&Process},{"Function",&Function},{"Exception",&Exception},{"GC",&GC},
+  {"Process",&Process},{"Function",&Function},{"Exception",&Exception},
+#ifndef CELLO_NGC
+  {"GC",&GC},
+#endif
   {"IOError",&IOError},{"KeyError",&KeyError},{"BusyError",&BusyError},{"TypeError",&TypeError},
   {"ValueError",&ValueError},{"ClassError",&ClassError},{"FormatError",&FormatError},
   {"ResourceError",&ResourceError},{"OutOfMemoryError",&OutOfMemoryError},
@@ -528,7 +531,14 @@ static void do_op(char** w, int n) {
   else if (OP("cstr")) { char* s = c_str(arg(w[1])); fputhex(o, s, strlen(s)); }
   else if (OP("cint")) { fprintf(o, "%" PRId64, c_int(arg(w[1]))); }
   else if (OP("cfloat")) { double d = c_float(arg(w[1])); uint64_t b; memcpy(&b, &d, 8); fprintf(o, "%016" PRIx64, b); }
-  else if (OP("typeof")) { var a = arg(w[1]); fprintf(o, "%s alloc=%d", c_str(type_of(a)), (int)(intptr_t)header(a)->alloc); }
+  else if (OP("typeof")) {
+    var a = arg(w[1]);
+#if CELLO_ALLOC_CHECK == 1
+    fprintf(o, "%s alloc=%d", c_str(type_of(a)), (int)(intptr_t)header(a)->alloc);
+#else
+    fprintf(o, "%s alloc=na", c_str(type_of(a)));
+#endif
+  }
   else if (OP("repr")) { repr(arg(w[1]), 0); }
   else if (OP("iter")) {                  /* iter c init|last|next|prev [%cur] d */
     var c = arg(w[1]); var r;
